@@ -778,8 +778,12 @@ class DocutilsRenderer(RendererProtocol):
         # TODO this is purely to mimic docutils, but maybe we don't need it?
         # (since we have the slugify logic below)
         name = nodes.fully_normalize_name(implicit_text)
-        node["names"].append(name)
+        # register only the implicit name: docutils would otherwise treat the explicit names
+        # the node already carries (e.g. from an {#id} attribute) as duplicates of themselves
+        explicit_names = node["names"]
+        node["names"] = [name]
         self.document.note_implicit_target(node, node)
+        node["names"] = explicit_names + node["names"]
 
         if level > self.md_config.heading_anchors:
             return
